@@ -261,6 +261,10 @@ class ObjRunner:
             return Vec(args[0])
         if name in ("np.linalg.norm", "numpy.linalg.norm") and len(args) == 1 and isinstance(args[0], Vec):
             return args[0].norm()
+        if name in ("itertools.product", "product") and name not in interp.env and args and all(isinstance(a, (list, tuple, range)) for a in args):
+            import itertools
+            rep_ = kw.get("repeat", 1)
+            return [list(t) for t in itertools.product(*args, repeat=rep_)]
         if name in ("re.compile",) and args and isinstance(args[0], str):
             return {"__class__": "re.Pattern", "pattern": args[0], "flags": args[1] if len(args) > 1 else 0}
         if name in ("re.match", "re.fullmatch", "re.search") and len(args) >= 2 and all(isinstance(a, str) for a in args[:2]):
